@@ -267,6 +267,7 @@ func (p *Progress) serve(s *pState, cw *cwriter.Writer) {
 		case op := <-operateState:
 			op(s)
 		case fn := <-interceptIO:
+			internal.Gate("ct:io", s)
 			fn(w)
 		case <-renderReq:
 			err = s.render(w)
